@@ -44,6 +44,9 @@ pub enum Op {
     SetTabWidth(u8),
     ForceDraw,
     CloneAndDrop,
+    /// wrap a seekable reader that already stands at this offset and ask for its position with
+    /// seek(SeekFrom::Current(0)): a seek sets the bar to the offset it returns
+    SeekCurrentZero(u8),
 }
 
 #[derive(Debug, Clone, Serialize, Deserialize)]
@@ -85,7 +88,7 @@ fn op_strategy() -> BoxedStrategy<Op> {
         1 => (0u8..5).prop_map(Op::WithFinish),
         3 => prop_oneof![
             Just(Op::ResetEta), Just(Op::ResetElapsed), Just(Op::SetMessage), Just(Op::SetPrefix), Just(Op::Println), Just(Op::Suspend),
-            Just(Op::SetStyle), (0u8..12).prop_map(Op::SetTabWidth), Just(Op::ForceDraw), Just(Op::CloneAndDrop)
+            Just(Op::SetStyle), (0u8..12).prop_map(Op::SetTabWidth), Just(Op::ForceDraw), Just(Op::CloneAndDrop), any::<u8>().prop_map(Op::SeekCurrentZero)
         ],
     ]
     .boxed()
@@ -155,6 +158,14 @@ fn run_hist(c: &HistCase) -> CaseResult {
             Op::SetTabWidth(w) => pb.set_tab_width(*w as usize),
             Op::ForceDraw => pb.force_draw(),
             Op::CloneAndDrop => drop(pb.clone()),
+            Op::SeekCurrentZero(k) => {
+                use std::io::Seek;
+                let mut cur = std::io::Cursor::new(vec![0u8; 300]);
+                cur.set_position(*k as u64);
+                let mut wrapped = pb.wrap_read(cur);
+                let at = wrapped.seek(std::io::SeekFrom::Current(0)).expect("cursor seek");
+                assert_eq!(at, *k as u64);
+            }
         });
         if let Op::WithFinish(k) = op {
             pb = pb.with_finish(finish_of(*k));
@@ -167,6 +178,7 @@ fn run_hist(c: &HistCase) -> CaseResult {
             Op::Inc(d) => pos = pos.wrapping_add(*d),
             Op::Dec(d) => pos = pos.wrapping_sub(*d),
             Op::SetPos(p) | Op::UpdateSetPos(p) => pos = *p,
+            Op::SeekCurrentZero(k) => pos = *k as u64,
             Op::Reset => pos = 0,
             Op::Finish | Op::FinishWithMessage | Op::FinishAndClear => {
                 if let Some(l) = len {
@@ -282,6 +294,10 @@ pub struct ConcCase {
     visible: bool,
     /// one extra thread that only draws / reads
     reader: bool,
+    /// afterwards a rayon pipeline over this many items is driven from the back through the bar
+    /// (`progress_with(..).rev()`): every item a worker takes is one more increment
+    #[serde(default)]
+    rayon_rev: u16,
 }
 
 fn run_conc(c: &ConcCase) -> CaseResult {
@@ -356,6 +372,21 @@ fn run_conc(c: &ConcCase) -> CaseResult {
     });
     stop.store(true, Ordering::Relaxed);
     r.map_err(|p| Fail::new("panic", format!("concurrent inc/dec panicked: {p}")))?;
+    if c.rayon_rev > 0 {
+        use indicatif::ParallelProgressIterator;
+        use rayon::prelude::*;
+        let items: Vec<u32> = (0..c.rayon_rev as u32).collect();
+        let pb2 = pb.clone();
+        let seen = std::sync::atomic::AtomicU64::new(0);
+        catch(|| {
+            items.into_par_iter().progress_with(pb2).rev().for_each(|_| {
+                seen.fetch_add(1, Ordering::Relaxed);
+            })
+        })
+        .map_err(|p| Fail::new("panic", format!("rayon rev pipeline panicked: {p}")))?;
+        ensure!(seen.load(Ordering::Relaxed) == c.rayon_rev as u64, "harness", "rayon pipeline lost items");
+        expect = expect.wrapping_add(c.rayon_rev as u64);
+    }
     let got = pb.position();
     ensure!(got == expect, "lost_update", "after {} threads finished: position() = {got}, the sum of all deltas gives {expect}", c.threads.len());
     let got_len = pb.length();
@@ -366,6 +397,7 @@ fn run_conc(c: &ConcCase) -> CaseResult {
     v.label_if(c.threads.iter().any(|t| t.dec_mask != 0) && c.threads.iter().any(|t| t.dec_mask != u64::MAX), "inc_and_dec_mixed");
     v.label_if(c.threads.iter().any(|t| t.clone), "clones");
     v.label_if(c.reader, "concurrent_reader");
+    v.label_if(c.rayon_rev > 0, "rayon_pipeline_driven_from_the_back");
     v.label_if(c.threads.iter().filter(|t| t.len_ops).count() >= 2, "concurrent_length_adjustments");
     Ok(v)
 }
@@ -380,8 +412,8 @@ fn conc_strategy(tier: Tier) -> BoxedStrategy<ConcCase> {
         any::<bool>(),
     )
         .prop_map(|(n_ops, deltas, dec_mask, clone, len_ops)| ThreadPlan { n_ops, deltas, dec_mask, clone, len_ops });
-    (special_u64(), proptest::collection::vec(plan, 1..=16), any::<bool>(), any::<bool>())
-        .prop_map(|(start, threads, visible, reader)| ConcCase { start, threads, visible, reader })
+    (special_u64(), proptest::collection::vec(plan, 1..=16), any::<bool>(), any::<bool>(), prop_oneof![1 => Just(0u16), 1 => 1u16..3000])
+        .prop_map(|(start, threads, visible, reader, rayon_rev)| ConcCase { start, threads, visible, reader, rayon_rev })
         .boxed()
 }
 
@@ -416,6 +448,7 @@ fn decode_hist(u: &mut FuzzInput) -> HistCase {
             28 => Op::SetStyle,
             29 => Op::SetTabWidth(u.n(12) as u8),
             30 => Op::ForceDraw,
+            31 if u.bool() => Op::SeekCurrentZero(u.u8()),
             _ => Op::CloneAndDrop,
         });
     }
@@ -450,7 +483,7 @@ pub fn property() -> Property {
                 cases: |t| t.pick(60, 1_500),
                 run: run_conc,
                 signature: no_signature,
-                essential: &["two_or_more_threads", "inc_and_dec_mixed", "clones", "concurrent_reader", "concurrent_length_adjustments"],
+                essential: &["two_or_more_threads", "inc_and_dec_mixed", "clones", "concurrent_reader", "concurrent_length_adjustments", "rayon_pipeline_driven_from_the_back"],
                 workers: 2,
                 decode: None,
             }),
